@@ -200,10 +200,10 @@ func (sz v9size) total() int {
 }
 
 const (
-	v9none = iota // a step is preceded by nothing,
-	v9rewind      // by Rewind,
-	v9swap        // by the transaction handing out a new overlay object with the same content,
-	v9modify      // or by an insert/update/delete of a symbolic key in the mutable layer
+	v9none   = iota // a step is preceded by nothing,
+	v9rewind        // by Rewind,
+	v9swap          // by the transaction handing out a new overlay object with the same content,
+	v9modify        // or by an insert/update/delete of a symbolic key in the mutable layer
 )
 
 // v9cfg is one family of scenarios
@@ -344,24 +344,27 @@ var v9quick = []v9cfg{
 	{size: v9size{2, []int{2}, 1}, klen: 1, ranges: []bool{false}, steps: 3, maxTurns: 1, preFrom: 3},
 }
 
-// the thorough tier: every shape with at most 3 entries (4 for an unrestricted range) in
-// btree 0..3 x layer 0..2 x mutable none|0..2, every script with one optional interlude
+// the thorough tier: every shape in btree 0..3 x layer 0..2 x mutable none|0..2 with at most
+// 3 entries: up to 2 entries with both kinds of range and every script (one optional interlude
+// before any step); 3 entries with an unrestricted range and every script, and with a symbolic
+// range and plain scripts or a Rewind; plus the quick tier's families.
 func v9thorough() []v9cfg {
-	var r []v9cfg
+	r := append([]v9cfg{}, v9quick...)
 	for nbt := 0; nbt <= 3; nbt++ {
 		for nl := 0; nl <= 2; nl++ {
 			for nm := -1; nm <= 2; nm++ {
 				sz := v9size{nbt, []int{nl}, nm}
-				c := v9cfg{size: sz, klen: 1, steps: 3, maxTurns: 2, pres: v9allPres, preFrom: 0, maxPre: 1}
+				all := v9cfg{size: sz, klen: 1, steps: 3, maxTurns: 2, pres: v9allPres, preFrom: 0, maxPre: 1}
 				switch {
-				case sz.total() <= 3:
-					c.ranges = v9both
-				case sz.total() <= 4:
-					c.ranges = []bool{false}
-				default:
-					continue
+				case sz.total() <= 2:
+					all.ranges = v9both
+					r = append(r, all)
+				case sz.total() == 3:
+					all.ranges = []bool{false}
+					r = append(r, all)
+					r = append(r, v9cfg{size: sz, klen: 1, ranges: []bool{true}, steps: 3, maxTurns: 2,
+						pres: []int{v9rewind}, preFrom: 1, maxPre: 1})
 				}
-				r = append(r, c)
 			}
 		}
 	}
@@ -373,7 +376,7 @@ func v9thorough() []v9cfg {
 // returns at every step exactly the next (previous) live key of the layered index inside the
 // range, with its newest offset; eof iff there is none; eof sticks until Rewind.
 //
-//symgo:harness prop=C09 tier=quick shards=8 tshards=16 timeout=400 ttimeout=3400 bounds=shape_=_(btree_keys,_entries_of_the_immutable_ixbuf_layer,_entries_of_the_mutable_layer_or_none);quick_families:(1,1,1)_unrestricted_range_all_scripts|(2,1,none)_symbolic_range_plain_scripts_or_Rewind_before_step_3|(1,0,none)_both_ranges_all_scripts_OverIter_and_SimpleIter|(0,2,0)_symbolic_range_modification_before_step_2_or_3_one_turn|(2,2,1)_unrestricted_range_plain_scripts_with_at_most_one_turn;thorough:every_shape_in_0..3_x_0..2_x_none|0..2_with_at_most_3_entries_(4_when_unrestricted),_all_scripts;scripts:3_steps_of_Next|Prev,_at_most_one_step_preceded_by_Rewind|new_overlay_object|insert/update/delete_of_a_symbolic_key_in_the_mutable_layer;entry_kinds_add/update/delete_symbolic,_constrained_only_by_the_layering_invariant;keys_1_symbolic_byte,_sorted_within_a_layer,_arbitrary_across_layers;40-bit_offsets;range_unrestricted_or_symbolic_[org,end) outside=skip-scan_mode;2_immutable_layers,_2-byte_keys,_4_steps_(see_VerifC09OverIter2);concurrent_modification
+//symgo:harness prop=C09 tier=quick shards=8 tshards=16 timeout=400 ttimeout=3400 bounds=shape_=_(btree_keys,_entries_of_the_immutable_ixbuf_layer,_entries_of_the_mutable_layer_or_none);quick_families:(1,1,1)_unrestricted_range_all_scripts|(2,1,none)_symbolic_range_plain_scripts_or_Rewind_before_step_3|(1,0,none)_both_ranges_all_scripts_OverIter_and_SimpleIter|(0,2,0)_symbolic_range_modification_before_step_2_or_3_one_turn|(2,2,1)_unrestricted_range_plain_scripts_with_at_most_one_turn;thorough:additionally_every_shape_in_0..3_x_0..2_x_none|0..2_with_at_most_2_entries_(both_ranges,_all_scripts,_interlude_before_any_step)_and_with_3_entries_(unrestricted_range_all_scripts;_symbolic_range_plain_scripts_or_one_Rewind);scripts:3_steps_of_Next|Prev,_at_most_one_step_preceded_by_Rewind|new_overlay_object|insert/update/delete_of_a_symbolic_key_in_the_mutable_layer;entry_kinds_add/update/delete_symbolic,_constrained_only_by_the_layering_invariant;keys_1_symbolic_byte,_sorted_within_a_layer,_arbitrary_across_layers;40-bit_offsets;range_unrestricted_or_symbolic_[org,end) outside=skip-scan_mode;2_immutable_layers,_2-byte_keys,_4_steps_(see_VerifC09OverIter2);concurrent_modification
 func VerifC09OverIter() {
 	if rt.Thorough() {
 		v9scenario(v9thorough())
@@ -384,11 +387,11 @@ func VerifC09OverIter() {
 
 // C09 OverIter with two immutable layers below the mutable one, 2-byte keys and 4 steps.
 //
-//symgo:harness prop=C09 tier=thorough tshards=16 ttimeout=3400 bounds=shapes_(btree,layer1,layer2,mutable):(1,1,1,none)_symbolic_range_plain_scripts|(1,1,1,0)_unrestricted_range_all_scripts_with_at_most_2_interludes|(2,1,1,1)_unrestricted_range_plain_scripts_with_one_turn;keys_2_symbolic_bytes;4_steps_of_Next|Prev;otherwise_as_VerifC09OverIter outside=as_VerifC09OverIter
+//symgo:harness prop=C09 tier=thorough tshards=16 ttimeout=3400 bounds=shapes_(btree,layer1,layer2,mutable):(1,1,1,none)_symbolic_range_plain_scripts|(1,1,1,0)_unrestricted_range_all_scripts_with_at_most_1_interlude_before_steps_2..4|(2,1,1,1)_unrestricted_range_plain_scripts_with_one_turn;keys_2_symbolic_bytes;4_steps_of_Next|Prev;otherwise_as_VerifC09OverIter outside=as_VerifC09OverIter
 func VerifC09OverIter2() {
 	v9scenario([]v9cfg{
 		{size: v9size{1, []int{1, 1}, -1}, klen: 2, ranges: []bool{true}, steps: 4, maxTurns: 3, preFrom: 4},
-		{size: v9size{1, []int{1, 1}, 0}, klen: 2, ranges: []bool{false}, steps: 4, maxTurns: 3, pres: v9allPres, preFrom: 1, maxPre: 2},
+		{size: v9size{1, []int{1, 1}, 0}, klen: 2, ranges: []bool{false}, steps: 4, maxTurns: 3, pres: v9allPres, preFrom: 1, maxPre: 1},
 		{size: v9size{2, []int{1, 1}, 1}, klen: 2, ranges: []bool{false}, steps: 4, maxTurns: 1, preFrom: 4},
 	})
 }
@@ -417,7 +420,7 @@ func (r v9raw) SkipScan(p Range, s Range, n int) {
 // Seek(k) lands on the first entry >= k, or on the last entry when there is none, and reports
 // eof iff the index is empty or that entry is outside the range.
 //
-//symgo:harness prop=C09 tier=quick shards=8 timeout=400 ttimeout=3000 bounds=btree_iterator|ixbuf_iterator;0..3_entries_(thorough_0..4);keys_1_symbolic_byte_(thorough_1|2)_in_an_assumed_ordering_chain;ixbuf_offsets_with_symbolic_flag_bits;range_unrestricted_or_symbolic_[org,end);2_steps_(thorough_3)_each_Next|Prev|Seek(symbolic_key),_optional_Rewind_before_step_2_(thorough:_before_any_later_step) outside=skip-scan_mode;modification_of_the_ixbuf_while_iterating_(covered_through_OverIter);trees_with_more_than_one_node
+//symgo:harness prop=C09 tier=quick shards=8 tshards=16 timeout=400 ttimeout=3400 bounds=btree_iterator|ixbuf_iterator;0..3_entries_(thorough_0..4);keys_1_symbolic_byte_(thorough_1|2)_in_an_assumed_ordering_chain;ixbuf_offsets_with_symbolic_flag_bits;range_unrestricted_or_symbolic_[org,end);2_steps_(thorough_3)_each_Next|Prev|Seek(symbolic_key),_optional_Rewind_before_step_2_(thorough:_before_any_later_step) outside=skip-scan_mode;modification_of_the_ixbuf_while_iterating_(covered_through_OverIter);trees_with_more_than_one_node
 func VerifC09LayerIter() {
 	maxn, steps, klen := 3, 2, 1
 	if rt.Thorough() {
